@@ -151,6 +151,7 @@ def run_prim(chk, replay=None):
     ard_lines = [b for _, b, _ in items]
     have_model = gate is not None and core.os.path.exists(core.RUNNER)
     failing, mism, kinds, sched_kinds = [], [], {}, {}
+    compared = oracled = 0
     for _, b, k in items:
         chk.count(b, k != "random")
         kinds[k] = kinds.get(k, 0) + 1
@@ -161,17 +162,24 @@ def run_prim(chk, replay=None):
         rd_out = dict(zip(rd_lines, core.run_lines(hb, rd_lines)))
         ard_out = core.run_lines(hb, ard_lines)
         for (a, b, k), o in zip(items, ard_out):
+            oracled += 1
             why = oracle(rd_out[a], o)
             if why:
                 failing.append((a, b, why, rd_out[a], o))
         if have_model:
             model = [re.sub(r"panic \w+", "panic", l) for l in core.run_lines(core.RUNNER, ard_lines)]
             for b, o, m in zip(ard_lines, ard_out, model):
+                if not (c09.answered(o) and c09.answered(m)):
+                    if c09.answered(o) != c09.answered(m):
+                        mism.append((b, o, m))
+                    continue
+                compared += 1
                 if c09.strip_impl(o) != m:
                     mism.append((b, o, m))
     for b in (ard_lines[0], ard_lines[len(ard_lines) // 2], ard_lines[-1]):
         chk.sample(b[:300])
-    chk.cov["disagreements_checked"] = len(items)
+    chk.cov["disagreements_checked"] = compared
+    chk.cov["oracle_checked"] = oracled
     chk.cov["model_impl_mismatches"] = len(mism)
     chk.cov["distribution"] = dict(kinds=kinds, schedules=sched_kinds, exhaustive_split_enumeration_upto_bytes=upto)
     for a, b, why, ro, ao in failing[:3]:
